@@ -69,6 +69,11 @@ fn real_main(mut args: Vec<String>) -> i32 {
         Some((it.next()?.parse().ok()?, it.next()?.parse().ok()?))
     });
     args.retain(|a| !a.starts_with("--shard="));
+    let autoplay: Option<(u64, u64)> = args.iter().find_map(|a| a.strip_prefix("--autoplay=")).and_then(|v| {
+        let mut it = v.split('/');
+        Some((it.next()?.parse().ok()?, it.next()?.parse().ok()?))
+    });
+    args.retain(|a| !a.starts_with("--autoplay="));
     match refchess::Keys::load("/repo/zobrist_bytes.bin") {
         Ok(k) => {
             let _ = props::core::KEYS.set(k);
@@ -129,6 +134,10 @@ fn real_main(mut args: Vec<String>) -> i32 {
                         let (i, n) = shard.unwrap_or((0, 1));
                         props::c13::run_shard(&tier, i, n)
                     }
+                    "C15" => {
+                        let (b, h) = autoplay.unwrap_or((1, 620));
+                        props::c15::autoplay_worker(b, h)
+                    }
                     _ => {
                         out!("MACHINERY-ERROR: no worker mode for {}", prop);
                         return 2;
@@ -158,6 +167,7 @@ fn real_main(mut args: Vec<String>) -> i32 {
                 "C10" => props::c10::run(&tier, seed),
                 "C14" => props::c14::run(&tier, seed),
                 "C13" => props::c13::run(&tier, seed),
+                "C15" => props::c15::run(&tier, seed),
                 _ => {
                     out!("MACHINERY-ERROR: unknown property {}", prop);
                     return 2;
@@ -203,6 +213,7 @@ fn replay(path: &str, worker: bool) -> i32 {
             "c10-root" => props::c10::replay(r),
             "e5-schedule" => props::c14::replay(r, &props::c14::oracle),
             "c13-case" => props::c13::replay(r),
+            "c15-mobility" | "c15-stack" | "c15-autoplay" => props::c15::replay(r),
             _ => Err(format!("unknown replay kind {:?}", kind)),
         }
     };
